@@ -48,14 +48,23 @@ def sweep(ctx, prog, name, evaluate, account, double=False, seed=1, picks=(0, 1)
     account(ctx, base, viols, info, ["sweep:" + name.split("/")[-1]])
     n = info["steps"]
     count = 1
+    bad_run = 1 if viols else 0
+    complete = True
     for i in range(n + 1):
         for p in picks:
             case = dict(base, tape=[[i, p]])
             viols, info = evaluate(case)
             account(ctx, case, viols, info, ["sweep:" + name.split("/")[-1]])
             count += 1
-    ctx.exhaustive.append({"domain": "single pre-emption placements of " + name, "points": n, "size": count, "complete": True})
-    if double:
+            bad_run = bad_run + 1 if [v for v in viols if not ctx.is_known(v["signature"])] else 0
+        if bad_run >= 60:
+            # 60 placements in a row violate (a broken tree: e.g. every run hangs until the virtual time limit):
+            # the verdict is in, do not spend an hour confirming it
+            complete = False
+            ctx.notes.append("sweep of %s cut short after %d consecutive violating placements" % (name, bad_run))
+            break
+    ctx.exhaustive.append({"domain": "single pre-emption placements of " + name, "points": n, "size": count, "complete": complete})
+    if double and complete:
         count2 = 0
         for i in range(n + 1):
             for p in picks:
